@@ -31,8 +31,16 @@ TNext == /\ l <= Len(Ev) /\ l' = l + 1 /\ t' = t
                ELSE ObsEq(a.obs, Ev[l].obs)
 TSpec == TInit /\ [][TNext]_vars
 
-\* the routing table itself must satisfy C01/C02's structural laws
+\* the routing table itself must satisfy C01/C02's structural laws ...
 ASSUME \A i \in DOMAIN Traces : RoutedOnce(Traces[i].cx) /\ MechLaw(Traces[i].cx)
+\* ... and must be the one ShellStructure.tla derives from the model and the configuration of the program
+SS == INSTANCE ShellStructure
+AsSetS(s) == {s[i] : i \in DOMAIN s}
+SelS(x) == [w |-> x.w, s |-> AsSetS(x.s)]
+CfgS(c) == [c EXCEPT !.prov = [sts |-> SelS(c.prov.sts), mts |-> SelS(c.prov.mts)],
+                      !.req = [sts |-> SelS(c.req.sts), mts |-> SelS(c.req.mts)]]
+RouteAgrees(i) == SS!RouteOf(Traces[i].decls, CfgS(Traces[i].cfg)) = Traces[i].cx.route
+ASSUME \A i \in DOMAIN Traces : RouteAgrees(i) \/ PrintT(<<"ROUTE-DIFFERS", Traces[i].id>>)
 ASSUME \A i \in DOMAIN Traces : TLCSet(i, 0)
 Progress == TLCSet(t, IF TLCGet(t) < l - 1 THEN l - 1 ELSE TLCGet(t))
 Rejected == {i \in DOMAIN Traces : TLCGet(i) < Len(Traces[i].events)}
